@@ -52,8 +52,20 @@ def oracle(seq):
     return None, either
 
 
-def check_seq(seq, obs):
+def check_seq(seq, obs, main_options_everywhere=False):
     parts = [section_bytes(s) for s in seq]
+    if main_options_everywhere:
+        # give the first header everything a main header carries, so that a
+        # wrong id cannot be rejected for a missing version
+        sid = seq[0]
+        name = sid.lstrip('.')
+        if name in BODY:
+            body, nlines = BODY[name]
+            parts[0] = (b'#%s: encoding=utf-8, length=%d, version=1.0\n'
+                        % (sid.encode(), len(body)) + body, 1 + nlines)
+        else:
+            parts[0] = (b'#%s: encoding=utf-8, version=1.0\n' % sid.encode(),
+                        1)
     data = b''.join(p[0] for p in parts)
     lines = []
     n = 0
@@ -62,7 +74,8 @@ def check_seq(seq, obs):
         n += p[1]
     want_k, either = oracle(seq)
     recs, exc, _ = common.read_records(data)
-    case = {'sequence': list(seq)}
+    case = {'sequence': list(seq),
+            'main_options_everywhere': main_options_everywhere}
     got_ids = [r['section'] for r in recs]
     if exc is not None and type(exc).__name__ != 'DiffXParseError':
         obs.violation('non_parse_exception:%s' % common.exc_mechanism(exc),
@@ -148,7 +161,10 @@ def run(ctx):
             i += 1
             if ctx.mine(i):
                 check_seq((first, second), obs)
-                n += 1
+                check_seq((first, second), obs, main_options_everywhere=True)
+                check_seq((first, second, '..file', '...meta'), obs,
+                          main_options_everywhere=True)
+                n += 3
     obs.case(None, nontrivial=False, n=n)
     obs.distinct_by_construction(n)
     obs.exhaustive = True
@@ -164,4 +180,5 @@ def run(ctx):
 
 def replay(case, obs):
     obs.case(None, nontrivial=False)
-    check_seq(tuple(case['sequence']), obs)
+    check_seq(tuple(case['sequence']), obs,
+              case.get('main_options_everywhere', False))
